@@ -20,7 +20,7 @@ for line in log:
         missing.append(line)
         continue
     rules = ", ".join(sorted({f["rule"] for f in fs}))
-    what = " / ".join(f["what_failed"] for f in fs).replace("|", "\\|")
+    what = " / ".join(dict.fromkeys(f["what_failed"] for f in fs)).replace("|", "\\|")
     rows.append(f"| `{h[:7]}` | {rules} | {what} |")
 table = "\n".join(rows) + "\n"
 if missing:
